@@ -75,7 +75,7 @@ def run(chk):
     n, per = (450, 4) if chk.thorough else (90, 3)
     cases = bc.gen_cases(chk, n, per, files=True)
     results = bc.run_impl(cases)
-    from props.c01 import spec_expr, SPEC_IMPORTS, spec_extents, classify_dump, nid_class   # shared with C01
+    from props.c01 import spec_expr, SPEC_IMPORTS, spec_extents, classify_dump, feature_tags, nid_class   # shared with C01
     vals, errs = bc.eval_model("C06", results, [bc.build_expr, wf_expr, spec_expr], imports=SPEC_IMPORTS + WF_DEF)
     disagreements, failures = [], []
     if errs:
@@ -84,7 +84,7 @@ def run(chk):
         if res["grammar_error"]:
             chk.stat("grammar rejected: " + res["grammar_error"].split(":")[0])
             continue
-        cls_tags = classify_dump(res["dump"])
+        cls_tags = classify_dump(res["dump"]) | feature_tags(res["dump"])
         cls_of = nid_class(res)
         for ii, (text, run_) in enumerate(zip(case["inputs"], res["runs"])):
             if run_.get("timeout") or run_.get("unsupported"):
